@@ -62,6 +62,8 @@ package phase5
 //@     invariant[|C05,C06] forall i int :: 0 <= i && i < c && routes[i].From.Layer != routes[i].To.Layer ==> polyEnds(routes[i])
 //@     invariant[|C06,C12] forall i int :: 0 <= i && i < c && routes[i].From.Layer != routes[i].To.Layer ==> len(routes[i].Points) == len(routes[i].ns) && polyBends(g, routes[i])
 //@   loop range(r.ns[1:len(r.ns)-1])#1 index j
+//@     invariant[|C01] len(r.ns) >= 3 && (forall t int :: 0 <= t && t < len(r.ns) ==> r.ns[t] != nil)
+//@     invariant[|C01] forall t int :: 0 < t && t < len(r.ns) - 1 ==> r.ns[t].IsVirtual && 0 <= r.ns[t].Layer && r.ns[t].Layer < len(g.Layers) && g.Layers[r.ns[t].Layer] != nil
 //@     invariant forall i int :: c < i && i < len(routes) ==> routes[i].Points == nil
 //@     invariant forall i int :: 0 <= i && i < c ==> allocatedArr(routes[i].Points) && arr(routes[i].Points) != arr(r.Points)
 //@     invariant[|C05,C06] forall i int :: 0 <= i && i < c && routes[i].From.Layer != routes[i].To.Layer ==> polyEnds(routes[i])
